@@ -8,3 +8,12 @@ open IrVerif.Scope
 #print axioms C17_deserialize_WF
 #print axioms C17_total_model
 #print axioms C17_idempotent_model_partial
+#print axioms C17_idempotent_model
+#print axioms C17_meta_idempotent
+#print axioms C17_idempotent_decorated
+#print axioms C17_meta_aligned
+#print axioms C17_ir9_not_idempotent
+#print axioms C17_ext_erasure
+#print axioms C17_consistent_ext
+#print axioms C17_total_ext
+#print axioms C17_ext_sharding_named
